@@ -62,7 +62,7 @@ func c02GoSummary(file []byte) (string, error) {
 }
 
 func RunC02(ctx *core.Ctx) {
-	ctx.SetRule("files written from catalogue struct types under random configurations (page version, codec (40 % of the cases force none, snappy or gzip file-wide; fields keep their own codec/encoding tags), page/row-group/dictionary limits, statistics, bloom filters (half of the cases: all leaves or a subset, 1/10/40 bits per value, sections written after each row group or deferred to the end of the file through DeferBloomFiltersWithBuffers with memory, 64-byte-chunk or temp-file buffers, bitsets uncompressed or gzip)), by GenericWriter, by a writer reused through Reset, and through WriteRowGroup from a file written with the same options (verbatim copy), from a file written with other options (re-encode) or from a buffer; catalogue types with Go maps included (structure and counts only); random key/value metadata, created_by and declared sorting columns, which the spec views of the footer (file.meta) must return as configured; the page-index offsets must be those the mirror of writeFileFooter computes from the same lengths (L2); sub-check longrow: one row whose list has 1023..131073 elements (around every power-of-two multiple of the 1024-value copy buffer) through every mode; each file is parsed by the Lean spec reader (thrift compact, footer, page headers at the announced offsets, offset/column index) which re-derives the layout numbers with the proved accounting model and, for uncompressed, snappy and gzip chunks, decompresses (spec Snappy reader, spec inflate/gunzip) and decodes every page with the spec decoders (levels, dictionary, PLAIN/RLE/DELTA_*/BYTE_STREAM_SPLIT values) comparing decoded counts with the headers and indexes; the decoded Dremel streams (file.dump) are compared column by column with the reference shredder's streams of the rows written (columns with a chunk in another codec are skipped and counted); non-trivial = more than one page in some chunk or more than one row group")
+	ctx.SetRule("files written from catalogue struct types under random configurations (page version, codec (50 % of the cases force none, snappy, gzip or lz4raw file-wide; fields keep their own codec/encoding tags), page/row-group/dictionary limits, statistics, bloom filters (half of the cases: all leaves or a subset, 1/10/40 bits per value, sections written after each row group or deferred to the end of the file through DeferBloomFiltersWithBuffers with memory, 64-byte-chunk or temp-file buffers, bitsets uncompressed or gzip)), by GenericWriter, by a writer reused through Reset, and through WriteRowGroup from a file written with the same options (verbatim copy), from a file written with other options (re-encode) or from a buffer; catalogue types with Go maps included (structure and counts only); random key/value metadata, created_by and declared sorting columns, which the spec views of the footer (file.meta) must return as configured; the page-index offsets must be those the mirror of writeFileFooter computes from the same lengths (L2); sub-check lz4raw: LZ4_RAW file-wide at every encoder level, every stored block must parse into a writable, end-rule-conformant sequence list (domain of lz4raw_part_inverts_conformant_block) and Spec.partBytes must return what the real decoder returns (L2); sub-check longrow: one row whose list has 1023..131073 elements (around every power-of-two multiple of the 1024-value copy buffer) through every mode; each file is parsed by the Lean spec reader (thrift compact, footer, page headers at the announced offsets, offset/column index) which re-derives the layout numbers with the proved accounting model and, for uncompressed, snappy, gzip and lz4raw chunks, decompresses (spec Snappy reader, spec inflate/gunzip, spec LZ4 block reader) and decodes every page with the spec decoders (levels, dictionary, PLAIN/RLE/DELTA_*/BYTE_STREAM_SPLIT values) comparing decoded counts with the headers and indexes; the decoded Dremel streams (file.dump) are compared column by column with the reference shredder's streams of the rows written (columns with a chunk in another codec are skipped and counted); non-trivial = more than one page in some chunk or more than one row group")
 	tmp := filepath.Join(".build", "tmp", fmt.Sprintf("c02-%s-%d", ctx.Variant, os.Getpid()))
 	os.MkdirAll(tmp, 0o755)
 	defer os.RemoveAll(tmp)
@@ -121,11 +121,11 @@ func RunC02(ctx *core.Ctx) {
 					opts = append(append([]parquet.WriterOption{}, opts...), bo...)
 					desc += bd
 				}
-				// value-level agreement covers uncompressed, snappy and gzip chunks: force one of them
-				// file-wide in 40 % of the cases (a later option overrides the earlier one; fields
+				// value-level agreement covers uncompressed, snappy, gzip and lz4raw chunks: force one of
+				// them file-wide in 50 % of the cases (a later option overrides the earlier one; fields
 				// carrying their own codec tag keep it)
-				if x := r.Intn(10); x < 4 || k == 1 {
-					name := []string{"none", "snappy", "gzip", "snappy"}[x%4]
+				if x := r.Intn(10); x < 5 || k == 1 {
+					name := []string{"none", "snappy", "gzip", "snappy", "lz4"}[x%5]
 					opts = append(append([]parquet.WriterOption{}, opts...), parquet.Compression(gen.Codecs[name]))
 					desc += " filecodec=" + name
 				}
@@ -185,7 +185,7 @@ func c02Judge(ctx *core.Ctx, d *drv.Driver, tmp string, e *gen.Entry, rows refle
 		if i := strings.Index(sum, "decoded="); i >= 0 {
 			var decoded, capped int
 			fmt.Sscanf(sum[i:], "decoded=%d capped=%d", &decoded, &capped)
-			ctx.HistN("data-pages", "value-decoded (none/snappy/gzip)", int64(decoded))
+			ctx.HistN("data-pages", "value-decoded (none/snappy/gzip/lz4raw)", int64(decoded))
 			ctx.HistN("data-pages", "structural only (other codec)", int64(data-decoded-capped))
 			ctx.HistN("data-pages", "capped", int64(capped))
 			if j := strings.Index(sum, "bloom="); j >= 0 {
